@@ -40,7 +40,9 @@ func corrShift(o corrOpts) *res.Summary {
 	cfgFromExtra(o)
 	dir := scratchDir("shift")
 	defer os.RemoveAll(dir)
-	genModule(dir, r, n, func(i int) gen.Options { return gen.Options{Ignores: true, NearMiss: i%4 == 0, Spelling: []int{0, 1}[i%2]} })
+	genModule(dir, r, n, func(i int) gen.Options {
+		return gen.Options{Ignores: true, NearMiss: i%4 == 0, Spelling: []int{0, 1}[i%2]}
+	})
 
 	keysOf := func(pkgs []*packages.Package, prog string) (map[string][]string, []string, error) {
 		var roots []*packages.Package
